@@ -47,7 +47,8 @@
     code given which blocks the x509 parsers accept), [get_region] /
     [calc_image_offset] (tools.GetRegion / CalcImageOffset after fiano),
     [parse_acm_after subtype] (tools.ParseACM after fit.ParseSACMData),
-    [local_files] (the file decisions of tpmdetection.local).
+    [local_files] (the file decisions of tpmdetection.local), [replay_w] / [replay_out]
+    (tpmeventlog.Replay with its optional log writer: which write sites a log reaches).
     - [reg_width id]: the serialised width of a register id (32 for
       TXT.PUBLIC.KEY, 8/4/1 by parser table, [None] = unknown id);
       [value_from_bytes] = [value_from_bytes_g true] is the code after the repair
@@ -501,6 +502,49 @@ Theorem C15_CalcImageOffset_total : forall ifd cb bios_ok len addr,
   (forall v, calc_image_offset ifd cb bios_ok len addr = Ok v -> 0 <= v < 18446744073709551616).
 Proof. exact Q_calc_image_offset. Qed.
 Print Assumptions C15_CalcImageOffset_total.
+
+(** * 12. tpmeventlog.Replay with its optional log writer (value model shared with C12: EventLog.replay)
+
+    [replay_w nilsafe H w log p a] is Replay with the writer [w] ([W_NIL] = logOut == nil, the way the
+    caller in cmd/ uses it; [W_SINK]; [W_FAILING] = Write returns an error) and the five places where it
+    writes to logOut ([W_SITE_*]); [nilsafe k] = site k copes with a nil writer.  [replay_out] =
+    [replay_w all_safe] is the code as it is (nil is replaced by io.Discard on entry). *)
+Theorem C15_Replay_total : forall H w log p a,
+  replay_out H w log p a <> Panic /\ replay_out H w log p a <> OutOfFuel.
+Proof. exact Q_replay_out_total. Qed.
+Print Assumptions C15_Replay_total.
+
+(** same value / same error whether a writer is given, fails, or is nil *)
+Theorem C15_Replay_writer_independent : forall H w log p a,
+  replay_out H w log p a = EventLog.replay H log p a.
+Proof. exact Q_replay_out_writer. Qed.
+Print Assumptions C15_Replay_writer_independent.
+
+(** nil-safety of a write site matters for the nil writer only *)
+Theorem C15_Replay_writer_given : forall nilsafe H w log p a, w <> W_NIL ->
+  replay_w nilsafe H w log p a = replay_out H W_NIL log p a.
+Proof. exact Q_replay_w_writer_given. Qed.
+Print Assumptions C15_Replay_writer_given.
+
+(** what the nil default is for: each of the five write sites is reached, with a nil writer, by a log
+    on which Replay returns a value ([ex_site_log k]: PCR1 with no event; PCR0 starting with the
+    StartupLocality event; PCR0 starting with a measurement) -- one site that does not cope with nil
+    panics there, and only for the nil writer *)
+Theorem C15_Replay_needs_nil_safe_writes : forall H k, 0 <= k < 5 ->
+  let '(l, p) := ex_site_log k in
+  replay_w (all_safe_but k) H W_NIL l p 4 = Panic /\
+  (exists v, replay_out H W_NIL l p 4 = Ok v) /\
+  replay_w (all_safe_but k) H W_SINK l p 4 = replay_out H W_NIL l p 4.
+Proof. exact Q_replay_needs_nil_safe. Qed.
+Print Assumptions C15_Replay_needs_nil_safe_writes.
+
+(** the "no init event seen, assume zeros" site: every PCR0 log whose first selected event is a measurement *)
+Theorem C15_Replay_needs_nil_safe_assume_zeros : forall H l a size e t,
+  EventLog.hash_size a = Some size -> EventLog.filter_events size 0 a l = Ok (e :: t) ->
+  (EventLog.ev_type e =? EventLog.EV_NO_ACTION) = false ->
+  replay_w (all_safe_but W_SITE_SET_ZEROS) H W_NIL l 0 a = Panic.
+Proof. exact Q_replay_site_zeros_panics. Qed.
+Print Assumptions C15_Replay_needs_nil_safe_assume_zeros.
 
 (** * Examples: non-trivial values *)
 
